@@ -195,6 +195,7 @@ func (w *world) releaseParkedPut() bool {
 	}
 	close(p.release)
 	<-p.done
+	atomic.AddInt32(&w.landed, 1)
 	return true
 }
 
@@ -701,6 +702,7 @@ type world struct {
 	failPuts int32
 	putErrs  int32
 
+	landed      int32 // number of parked appends that have reached the follower's queue
 	overtakes   int32 // number of times an append of a new stream overtook a parked append of a dead stream
 	parkNextPut atomic.Bool
 	putMu       sync.Mutex
